@@ -109,9 +109,9 @@ def ambiguous_union(t):
 
 
 def has_any(t):
-    """positions whose content is carried over untyped: only the undeclared keys a TypedDict keeps under additional_properties
-    remain excluded from the sharing check (Any positions are copied under no_copy=False since the repair of F112)"""
-    return any(isinstance(n, ObjectT) and n.kind == "typeddict" for n in t.walk())
+    """positions excluded from the no-sharing check: none any more (Any positions and the undeclared keys kept by a TypedDict are
+    copied under no_copy=False since the repairs of F112 / F113)"""
+    return False
 
 
 def check_deser(env, prog, label, ndata):
